@@ -135,6 +135,41 @@ impl VacancyTracker {
     }
 }
 
+#[cfg(folo_verif)]
+impl VacancyTracker {
+    /// Verification hook: the vacancy index must describe exactly `slab_has_vacancy`.
+    pub(crate) fn __verif_check(&self, slab_has_vacancy: &[bool]) -> Result<(), String> {
+        if self.has_vacancy.len() != slab_has_vacancy.len() {
+            return Err(format!(
+                "vacancy map covers {} slabs, pool has {}",
+                self.has_vacancy.len(),
+                slab_has_vacancy.len()
+            ));
+        }
+        let mut lowest = None;
+        for (index, expected) in slab_has_vacancy.iter().enumerate() {
+            let bit = self
+                .has_vacancy
+                .get(index..)
+                .and_then(|slice| slice.first_one())
+                == Some(0);
+            if bit != *expected {
+                return Err(format!("vacancy bit {index} is {bit}, slab vacancy is {expected}"));
+            }
+            if bit && lowest.is_none() {
+                lowest = Some(index);
+            }
+        }
+        if self.next_vacancy != lowest {
+            return Err(format!(
+                "cached next vacancy {:?}, lowest vacant slab {lowest:?}",
+                self.next_vacancy
+            ));
+        }
+        Ok(())
+    }
+}
+
 #[cfg(test)]
 #[allow(
     clippy::multiple_unsafe_ops_per_block,
